@@ -231,6 +231,9 @@ impl<T> Executor<T> {
             // every finished result taken out of the task table has been handed to the callback -- nothing is dequeued or
             // removed and then dropped
             forall|i: int| 0 <= i < dequeued.len() ==> crate::async_task::w_ran(#[trigger] dequeued[i]),
+            // ... and after every run the task's entry in the table has been looked at (a task that has just finished is
+            // never scheduled again: if its result is not collected now it never is)
+            forall|i: int| 0 <= i < dequeued.len() ==> crate::slab::w_slab_looked((#[trigger] dequeued[i]).spec_meta()),
             dequeued.len() <= lit.index@,
             forall|i: int| 0 <= i < taken.len() ==> w_result_delivered(#[trigger] taken[i]),
         ensures
